@@ -85,7 +85,6 @@ PROPS = {
         "assumptions": ["single logical call stack during probing (rayon pool of one thread); other threads do not touch the configuration while an operation is probed"],
     },
     "C06": {
-        "claimed": False,
         "lean_props": ["ZarrsModel.Props.C06"],
         "harness": "c06",
         "rule": "random configuration (all data types, grids, key encodings, chains incl. nested sharding/transposes/compressors/checksums; half of them sharded) + random write history, "
